@@ -52,6 +52,7 @@ static int trk_should_fail(void)
 	return trk_on && trk_count++ == trk_fail_at;
 }
 
+#ifndef VH_NO_WRAP
 void *__wrap_malloc(size_t n)
 {
 	void *p;
@@ -87,6 +88,8 @@ char *__wrap_strdup(const char *s)
 	if (trk_should_fail()) return NULL;
 	p = __real_strdup(s); trk_add(p, strlen(s) + 1); return p;
 }
+
+#endif /* VH_NO_WRAP */
 
 // ---------------------------------------------------------------- file-system stubs
 static int fs_next_ok = 1;            // outcome of the next deciding call
@@ -139,118 +142,177 @@ static void out_hexstr(const char *s)
 	else vh_out_hex((const uint8_t *) s, strlen(s));
 }
 
-// rdr <kind> <policy> <fail-at|-1> <ops> <archive hex>
-int vh_ops_reader(int argc, char **argv)
-{
+typedef struct {
 	VhBytes a;
 	CbSrc cb;
-	FILE *fh = NULL;
-	LHAInputStream *stream = NULL;
+	FILE *fh;
+	LHAInputStream *stream;
 	LHAReader *reader;
-	char *ops, *tok, *save;
-	int first = 1, pipe_child = -1, cur_is_file = 0;
+	int pipe_child, cur_is_file;
+} RCtx;
 
-	if (strcmp(argv[0], "rdr") || argc != 6) return 0;
-	if (!vh_parse_hex(argv[5], &a)) return 0;
-	trk_count = 0; trk_live = 0; trk_n = 0; trk_bytes = 0; trk_peak_bytes = 0;
-	trk_fail_at = atol(argv[3]);
-	cb.data = a.data; cb.len = a.len; cb.pos = 0; cb.reads = 0; cb.moved = 0;
-
-	if (!strcmp(argv[1], "seek")) {
-		fh = tmpfile();
-		fwrite(a.data, 1, a.len, fh);
-		rewind(fh);
-	} else if (!strcmp(argv[1], "pipe")) {
+static int rctx_open(RCtx *c, const char *kind, const char *policy, const char *hex)
+{
+	memset(c, 0, sizeof(*c));
+	c->pipe_child = -1;
+	if (!vh_parse_hex(hex, &c->a)) return 0;
+	c->cb.data = c->a.data; c->cb.len = c->a.len;
+	if (!strcmp(kind, "seek")) {
+		c->fh = tmpfile();
+		fwrite(c->a.data, 1, c->a.len, c->fh);
+		rewind(c->fh);
+	} else if (!strcmp(kind, "pipe")) {
 		int fds[2];
 		if (pipe(fds) != 0) return 0;
 		fflush(stdout);
-		pipe_child = fork();
-		if (pipe_child == 0) {
+		c->pipe_child = fork();
+		if (c->pipe_child == 0) {
 			size_t off = 0;
 			close(fds[0]);
-			while (off < a.len) {
-				ssize_t w = write(fds[1], a.data + off, a.len - off);
+			while (off < c->a.len) {
+				ssize_t w = write(fds[1], c->a.data + off, c->a.len - off);
 				if (w <= 0) break;
 				off += (size_t) w;
 			}
 			_exit(0);
 		}
 		close(fds[1]);
-		fh = fdopen(fds[0], "rb");
+		c->fh = fdopen(fds[0], "rb");
 	}
 	trk_on = 1;
-	if (fh != NULL) stream = lha_input_stream_from_FILE(fh);
-	else if (!strcmp(argv[1], "cbskip")) stream = lha_input_stream_new(&cb_type_skip, &cb);
-	else stream = lha_input_stream_new(&cb_type_noskip, &cb);
-	reader = stream ? lha_reader_new(stream) : NULL;
+	if (c->fh != NULL) c->stream = lha_input_stream_from_FILE(c->fh);
+	else if (!strcmp(kind, "cbskip")) c->stream = lha_input_stream_new(&cb_type_skip, &c->cb);
+	else c->stream = lha_input_stream_new(&cb_type_noskip, &c->cb);
+	c->reader = c->stream ? lha_reader_new(c->stream) : NULL;
 	trk_on = 0;
-	if (reader == NULL) {
-		vh_out("new-failed");
-		if (stream) { trk_on = 1; lha_input_stream_free(stream); trk_on = 0; }
-		goto done;
+	if (c->reader == NULL) {
+		if (c->stream) { trk_on = 1; lha_input_stream_free(c->stream); trk_on = 0; c->stream = NULL; }
+		return -1;
 	}
-	if (!strcmp(argv[2], "plain")) lha_reader_set_dir_policy(reader, LHA_READER_DIR_PLAIN);
-	else if (!strcmp(argv[2], "eof")) lha_reader_set_dir_policy(reader, LHA_READER_DIR_END_OF_FILE);
-	else lha_reader_set_dir_policy(reader, LHA_READER_DIR_END_OF_DIR);
-
-	ops = strdup(argv[4]);
-	for (tok = strtok_r(ops, ";", &save); tok; tok = strtok_r(NULL, ";", &save)) {
-		if (!first) vh_out(";");
-		first = 0;
-		if (tok[0] == 'n') {
-			LHAFileHeader *h;
-			trk_on = 1; h = lha_reader_next_file(reader); trk_on = 0;
-			cur_is_file = h != NULL && strcmp(h->compress_method, "-lhd-") != 0;
-			if (h == NULL) vh_out("END");
-			else {
-				int fake;
-				trk_on = 1; fake = lha_reader_current_is_fake(reader); trk_on = 0;
-				vh_out("H%d:", fake);
-				out_hexstr(h->path); vh_out(":");
-				out_hexstr(h->filename); vh_out(":");
-				out_hexstr(h->symlink_target); vh_out(":");
-				vh_out_hex((uint8_t *) h->compress_method, 5);
-				vh_out(":%lu:%lu", (unsigned long) h->length, (unsigned long) h->compressed_length);
-			}
-		} else if (tok[0] == 'r') {
-			size_t k = (size_t) atol(tok + 1), got;
-			uint8_t *buf = malloc(k ? k : 1);
-			vh_scribble_stack(0x5a);
-			trk_on = 1; got = lha_reader_read(reader, buf, k); trk_on = 0;
-			if (got > k) { vh_out("OVERREAD"); got = k; }
-			vh_out_hex(buf, got);
-			free(buf);
-		} else if (tok[0] == 'c') {
-			int r;
-			trk_on = 1; r = lha_reader_check(reader, NULL, NULL); trk_on = 0;
-			vh_out("c%d", r != 0);
-		} else if (tok[0] == 'x') {
-			int r;
-			fs_next_ok = tok[1] != '0';
-			fs_file = NULL; fs_buf = NULL; fs_len = 0;
-			trk_on = 1; r = lha_reader_extract(reader, NULL, NULL, NULL); trk_on = 0;
-			vh_out("x%d", r != 0);
-			if (fs_buf != NULL && !cur_is_file) { free(fs_buf); fs_buf = NULL; }
-			if (fs_buf != NULL) {
-				uint16_t crc = 0;
-				lha_crc16_buf(&crc, (uint8_t *) fs_buf, fs_len);
-				vh_out(":%lu:%04x", (unsigned long) fs_len, crc);
-				free(fs_buf); fs_buf = NULL;
-			}
-		} else {
-			vh_out("?");
-		}
-	}
-	free(ops);
-	trk_on = 1;
-	lha_reader_free(reader);
-	lha_input_stream_free(stream);
-	trk_on = 0;
-done:
-	vh_out(" live=%ld allocs=%ld peak=%ld", trk_live, trk_count, trk_peak_bytes);
-	if (fh == NULL) vh_out(" reads=%lu moved=%lu", cb.reads, cb.moved);
-	if (fh != NULL) fclose(fh);
-	if (pipe_child > 0) { int st; waitpid(pipe_child, &st, 0); }
-	free(a.data);
+	if (!strcmp(policy, "plain")) lha_reader_set_dir_policy(c->reader, LHA_READER_DIR_PLAIN);
+	else if (!strcmp(policy, "eof")) lha_reader_set_dir_policy(c->reader, LHA_READER_DIR_END_OF_FILE);
+	else lha_reader_set_dir_policy(c->reader, LHA_READER_DIR_END_OF_DIR);
 	return 1;
+}
+
+static void rctx_step(RCtx *c, const char *tok)
+{
+	LHAReader *reader = c->reader;
+	if (tok[0] == 'n') {
+		LHAFileHeader *h;
+		trk_on = 1; h = lha_reader_next_file(reader); trk_on = 0;
+		c->cur_is_file = h != NULL && strcmp(h->compress_method, "-lhd-") != 0;
+		if (h == NULL) vh_out("END");
+		else {
+			int fake;
+			trk_on = 1; fake = lha_reader_current_is_fake(reader); trk_on = 0;
+			vh_out("H%d:", fake);
+			out_hexstr(h->path); vh_out(":");
+			out_hexstr(h->filename); vh_out(":");
+			out_hexstr(h->symlink_target); vh_out(":");
+			vh_out_hex((uint8_t *) h->compress_method, 5);
+			vh_out(":%lu:%lu", (unsigned long) h->length, (unsigned long) h->compressed_length);
+		}
+	} else if (tok[0] == 'r') {
+		size_t k = (size_t) atol(tok + 1), got;
+		uint8_t *buf = malloc(k ? k : 1);
+		vh_scribble_stack(0x5a);
+		trk_on = 1; got = lha_reader_read(reader, buf, k); trk_on = 0;
+		if (got > k) { vh_out("OVERREAD"); got = k; }
+		vh_out_hex(buf, got);
+		free(buf);
+	} else if (tok[0] == 'c') {
+		int r;
+		trk_on = 1; r = lha_reader_check(reader, NULL, NULL); trk_on = 0;
+		vh_out("c%d", r != 0);
+	} else if (tok[0] == 'x') {
+		int r;
+		fs_next_ok = tok[1] != '0';
+		fs_file = NULL; fs_buf = NULL; fs_len = 0;
+		trk_on = 1; r = lha_reader_extract(reader, NULL, NULL, NULL); trk_on = 0;
+		vh_out("x%d", r != 0);
+		if (fs_buf != NULL && !c->cur_is_file) { free(fs_buf); fs_buf = NULL; }
+		if (fs_buf != NULL) {
+			uint16_t crc = 0;
+			lha_crc16_buf(&crc, (uint8_t *) fs_buf, fs_len);
+			vh_out(":%lu:%04x", (unsigned long) fs_len, crc);
+			free(fs_buf); fs_buf = NULL;
+		}
+	} else {
+		vh_out("?");
+	}
+}
+
+static void rctx_close(RCtx *c)
+{
+	if (c->reader != NULL) {
+		trk_on = 1;
+		lha_reader_free(c->reader);
+		lha_input_stream_free(c->stream);
+		trk_on = 0;
+	}
+	if (c->fh != NULL) fclose(c->fh);
+	if (c->pipe_child > 0) { int st; waitpid(c->pipe_child, &st, 0); }
+	free(c->a.data);
+}
+
+// rdr  <kind> <policy> <fail-at|-1> <ops> <archive hex>
+// rdr2 <kindA> <policyA> <opsA> <hexA> <kindB> <policyB> <opsB> <hexB> <interleaving, e.g. ABBA…>
+int vh_ops_reader(int argc, char **argv)
+{
+	if (!strcmp(argv[0], "rdr") && argc == 6) {
+		RCtx c;
+		char *ops, *tok, *save;
+		int first = 1, ok;
+		trk_count = 0; trk_live = 0; trk_n = 0; trk_bytes = 0; trk_peak_bytes = 0;
+		trk_fail_at = atol(argv[3]);
+		ok = rctx_open(&c, argv[1], argv[2], argv[5]);
+		if (ok == 0) return 0;
+		if (ok < 0) {
+			vh_out("new-failed");
+		} else {
+			ops = strdup(argv[4]);
+			for (tok = strtok_r(ops, ";", &save); tok; tok = strtok_r(NULL, ";", &save)) {
+				if (!first) vh_out(";");
+				first = 0;
+				rctx_step(&c, tok);
+			}
+			free(ops);
+		}
+		{
+			int is_cb = c.fh == NULL;
+			unsigned long reads, moved;
+			rctx_close(&c);
+			reads = c.cb.reads; moved = c.cb.moved;
+			vh_out(" live=%ld allocs=%ld peak=%ld", trk_live, trk_count, trk_peak_bytes);
+			if (is_cb) vh_out(" reads=%lu moved=%lu", reads, moved);
+		}
+		return 1;
+	}
+	if (!strcmp(argv[0], "rdr2") && argc == 10) {
+		RCtx c[2];
+		char *ops[2], *save[2], *tok[2];
+		const char *il = argv[9];
+		int i, first = 1;
+		trk_count = 0; trk_live = 0; trk_n = 0; trk_bytes = 0; trk_peak_bytes = 0; trk_fail_at = -1;
+		if (rctx_open(&c[0], argv[1], argv[2], argv[4]) <= 0) return 0;
+		if (rctx_open(&c[1], argv[5], argv[6], argv[8]) <= 0) return 0;
+		ops[0] = strdup(argv[3]); ops[1] = strdup(argv[7]);
+		tok[0] = strtok_r(ops[0], ";", &save[0]);
+		tok[1] = strtok_r(ops[1], ";", &save[1]);
+		for (; *il || tok[0] || tok[1]; ) {
+			i = *il ? (*il++ == 'B') : (tok[0] ? 0 : 1);
+			if (tok[i] == NULL) continue;
+			if (!first) vh_out(";");
+			first = 0;
+			vh_out("%c=", 'A' + i);
+			rctx_step(&c[i], tok[i]);
+			tok[i] = strtok_r(NULL, ";", &save[i]);
+		}
+		free(ops[0]); free(ops[1]);
+		rctx_close(&c[0]); rctx_close(&c[1]);
+		vh_out(" live=%ld", trk_live);
+		return 1;
+	}
+	return 0;
 }
